@@ -45,6 +45,19 @@ type Env struct {
 	H    *absnfs.NFSProcedureHandler
 	xid  atomic.Uint32
 	once sync.Once
+
+	// ViaConn routes CallWire through the server's real record-marking connection loop instead of a direct
+	// HandleCall: one in-process connection per client address (ip, port), shared by every credential used
+	// from that address, exactly as one NFS client machine multiplexes its users over one TCP connection.
+	ViaConn  bool
+	ConnWait time.Duration // reply wait in ViaConn mode (default 20 s)
+	cmu      sync.Mutex
+	conns    map[string]*sharedConn
+}
+
+type sharedConn struct {
+	mu sync.Mutex
+	p  *PipeConn
 }
 
 // FastTimeouts keeps requests from hanging for long when a check parks them.
@@ -77,7 +90,63 @@ func New(fs absfs.SymlinkFileSystem, opts absnfs.ExportOptions) (*Env, error) {
 }
 
 // Close releases the server.
-func (e *Env) Close() { e.once.Do(func() { e.NFS.Close() }) }
+func (e *Env) Close() {
+	e.once.Do(func() {
+		e.cmu.Lock()
+		cs := e.conns
+		e.conns = nil
+		e.cmu.Unlock()
+		for _, c := range cs {
+			c.p.Close()
+		}
+		e.NFS.Close()
+	})
+}
+
+// ErrConnClosed is returned in ViaConn mode when the server closed the connection instead of replying.
+var ErrConnClosed = errors.New("connection closed by the server without a reply")
+
+func (e *Env) callConn(cl Client, msg []byte) ([]byte, error) {
+	key := fmt.Sprintf("%s|%d", cl.IP, cl.Port)
+	e.cmu.Lock()
+	if e.conns == nil {
+		e.conns = map[string]*sharedConn{}
+	}
+	c := e.conns[key]
+	if c == nil {
+		c = &sharedConn{p: e.Pipe(cl.IP, cl.Port)}
+		e.conns[key] = c
+	}
+	e.cmu.Unlock()
+	c.mu.Lock()
+	defer c.mu.Unlock()
+	drop := func() {
+		e.cmu.Lock()
+		if e.conns[key] == c {
+			delete(e.conns, key)
+		}
+		e.cmu.Unlock()
+		c.p.Close()
+	}
+	if err := c.p.Send(msg); err != nil {
+		drop()
+		return nil, ErrConnClosed
+	}
+	wait := e.ConnWait
+	if wait <= 0 {
+		wait = 20 * time.Second
+	}
+	rep, err := c.p.Recv(wait)
+	if err != nil {
+		drop()
+		var ne net.Error
+		if errors.As(err, &ne) && ne.Timeout() {
+			return nil, ErrTimeout
+		}
+		return nil, ErrConnClosed
+	}
+	return rep, nil
+}
 
 // ErrTimeout is returned when HandleCall itself reports a timeout (no reply).
 var ErrTimeout = errors.New("HandleCall: operation timed out (no reply)")
@@ -85,6 +154,9 @@ var ErrTimeout = errors.New("HandleCall: operation timed out (no reply)")
 // CallWire sends one call (already complete RPC message bytes) through
 // DecodeRPCCall + HandleCall + EncodeRPCReply and returns the reply bytes.
 func (e *Env) CallWire(cl Client, msg []byte) ([]byte, error) {
+	if e.ViaConn {
+		return e.callConn(cl, msg)
+	}
 	rd := bytes.NewReader(msg)
 	call, err := absnfs.DecodeRPCCall(rd)
 	if err != nil {
